@@ -125,6 +125,28 @@ pub fn u16_to_be(x: u16) -> (r: u16)
     ensures r as int == (x as int % 256) * 256 + x as int / 256,
 { x.to_be() }
 
+// ---- arrayvec::ArrayVec: assumed specs over an uninterpreted view (arrayvec internals are not verified) -------------------
+pub uninterp spec fn av_view<T, const CAP: usize>(v: &arrayvec::ArrayVec<T, CAP>) -> Seq<T>;
+
+pub assume_specification<T, const CAP: usize> [arrayvec::ArrayVec::<T, CAP>::new_const] () -> (r: arrayvec::ArrayVec<T, CAP>)
+    ensures av_view(&r).len() == 0;
+pub assume_specification<T, const CAP: usize> [arrayvec::ArrayVec::<T, CAP>::is_full] (v: &arrayvec::ArrayVec<T, CAP>) -> (r: bool)
+    ensures r == (av_view(v).len() >= CAP), av_view(v).len() <= CAP;
+/// safety contract of `push_unchecked`: the vector is not full
+pub assume_specification<T, const CAP: usize> [arrayvec::ArrayVec::<T, CAP>::push_unchecked] (v: &mut arrayvec::ArrayVec<T, CAP>, e: T)
+    requires av_view(old(v)).len() < CAP
+    ensures av_view(final(v)) == av_view(old(v)).push(e);
+
+/// stands for `inner.as_ptr().offset_from(outer.as_ptr()) as usize` (and the `as usize` subtraction form) where `inner` was cut
+/// out of `outer`. An exact model is impossible in Verus (slices are values, without addresses); the spec only says the result is
+/// *an* offset at which the content of `inner` occurs in `outer`. Numeric layer offsets computed through it are therefore not
+/// decided by Verus (they are covered by the bounded Kani whole-packet harnesses).
+#[verifier::external_body]
+pub fn offset_in(inner: &[u8], outer: &[u8]) -> (r: usize)
+    requires exists|o: int| 0 <= o && o + inner@.len() <= outer@.len() && #[trigger] outer@.subrange(o, o + inner@.len()) == inner@,
+    ensures r + inner@.len() <= outer@.len(), outer@.subrange(r as int, r + inner@.len()) == inner@,
+{ unsafe { inner.as_ptr().offset_from(outer.as_ptr()) as usize } }
+
 pub proof fn lemma_u8_and_le(x: u8, m: u8) ensures (x & m) <= m { assert((x & m) <= m) by(bit_vector); }
 
 } // verus!
